@@ -125,6 +125,69 @@ Section Oracles.
   Definition checked (st : pstate) (ib : ibtp) (pd : proofdata) (t : tx) : tx :=
     {| tx_from := tx_from t; tx_nonce := tx_nonce t; tx_kind := tx_kind t;
        tx_invalid := tx_invalid t || negb (vres_ok (verify_proof st ib pd)) |}.
+
+  (** ---------------------------------------------------------------------------------- *)
+  (** the proof pool as an object of the NODE: through which view of the state do its appchain /
+      rule / trust-root lookups go?
+
+      The code as it stands takes [ledger.Copy()] for every lookup: the state committed by the
+      previous block.  Node-local memory (outside the ledger, lost by a restart): [n_view], the
+      view a pool that MEMOISES its first Copy() would hold.  Two configuration facts decide
+      whether such a memory is observable:
+      - [d_memo_view] (defect flag, [false] for the code as it stands): the pool keeps the view
+        of its first lookup for the life of the process;
+      - [snapshot_ledger]: Copy() is a snapshot of the state ([ledger.type = "complex"]); with
+        the default simple ledger Copy() is the live ledger itself and a kept reference still
+        reads the latest committed state. *)
+  Record pcfg := { d_memo_view : bool; snapshot_ledger : bool }.
+
+  Inductive pevent :=
+  | PCommit (st : pstate)                    (* a block commits; [st] is the state after it *)
+  | PRestart                                 (* the process restarts: a new pool over the same ledger *)
+  | PCheck (ib : ibtp) (pd : proofdata).     (* verifyProofs / CheckProof asks the pool *)
+
+  Record node := { n_committed : pstate; n_view : option pstate }.
+
+  Definition pool_view (c : pcfg) (n : node) : pstate :=
+    if d_memo_view c && snapshot_ledger c
+    then match n_view n with Some v => v | None => n_committed n end
+    else n_committed n.
+
+  Definition pool_step (c : pcfg) (n : node) (e : pevent) : node * option (pstate * vres) :=
+    match e with
+    | PCommit st => ({| n_committed := st; n_view := n_view n |}, None)
+    | PRestart => ({| n_committed := n_committed n; n_view := None |}, None)
+    | PCheck ib pd =>
+        ({| n_committed := n_committed n;
+            n_view := Some (match n_view n with Some v => v | None => n_committed n end) |},
+         Some (n_committed n, verify_proof (pool_view c n) ib pd))
+    end.
+
+  (** answers of a node history; each with the state committed when the question was asked (the
+      state at the end of the previous block) *)
+  Fixpoint pool_run (c : pcfg) (n : node) (evs : list pevent) : list (option (pstate * vres)) :=
+    match evs with
+    | [] => []
+    | e :: t => let '(n', a) := pool_step c n e in a :: pool_run c n' t
+    end.
+
+  (** the specification of the pool without any memory: every question is answered from the state
+      committed by the last block before it *)
+  Fixpoint pool_spec (cur : pstate) (evs : list pevent) : list (option (pstate * vres)) :=
+    match evs with
+    | [] => []
+    | PCommit st :: t => None :: pool_spec st t
+    | PRestart :: t => None :: pool_spec cur t
+    | PCheck ib pd :: t => Some (cur, verify_proof cur ib pd) :: pool_spec cur t
+    end.
+
+  (** the state committed at the end of the last block before event [i] *)
+  Fixpoint committed_at (cur : pstate) (evs : list pevent) (i : nat) : pstate :=
+    match i, evs with
+    | S j, PCommit st :: t => committed_at st t j
+    | S j, _ :: t => committed_at cur t j
+    | _, _ => cur
+    end.
 End Oracles.
 
 (** ------------------------------------------------------------------------------------ *)
@@ -279,6 +342,72 @@ Definition judge_proof (k : pcase) : verdict :=
   else if negb (p_master_b k) then V_propfalse 600
   else if negb (p_verified_b k) then V_propfalse 500
   else judge_frame (frame_of k).
+
+(** judge for whole node histories of the proof pool (commits = the appchain / rule records as
+    read back or seeded at the end of each block, restarts, questions with the observed answer
+    "accepted?").  First the property on the implementation's answers: an accepted locally
+    originated IBTP is accepted by the MASTER rule bound in the state committed by the previous
+    block; then the answers must be those of [pool_run] under one of the configurations. *)
+Inductive hev :=
+| HCommit (chains : list (N * appchain)) (rules : list (N * list rule))
+| HRestart
+| HCheck (ib : ibtp) (pd : proofdata) (accepted : bool).
+
+Record hcase := { hc_bxh : N; hc_snapshot : bool; hc_memo : list bool; hc_evs : list hev }.
+
+Definition hstate (bxh : N) chains rules : pstate :=
+  pstate_of bxh {| pd_chains := chains; pd_rules := rules;
+                   pd_ibtp := {| ib_id := 0; ib_from_bxh := 0; ib_from_chain := 0; ib_to_bxh := 0; ib_to_chain := 0;
+                                 ib_is_req := true; ib_proofhash := 0 |};
+                   pd_proof := PdAbsent |}.
+
+Definition hev_event (bxh : N) (e : hev) : pevent :=
+  match e with
+  | HCommit ch ru => PCommit (hstate bxh ch ru)
+  | HRestart => PRestart
+  | HCheck ib pd _ => PCheck ib pd
+  end.
+
+Definition hev_obs (e : hev) : option bool :=
+  match e with HCheck _ _ a => Some a | _ => None end.
+
+Definition empty_node (bxh : N) : node := {| n_committed := hstate bxh [] []; n_view := None |}.
+
+Definition c_pool_run (c : pcfg) (k : hcase) :=
+  pool_run c_H c_digest c_rule c_recover c (empty_node (hc_bxh k)) (map (hev_event (hc_bxh k)) (hc_evs k)).
+
+(** property: computed with the committed states only (no pool, no memory) *)
+Fixpoint p_pool_current_b (bxh : N) (cur : pstate) (evs : list hev) : bool :=
+  match evs with
+  | [] => true
+  | HCommit ch ru :: t => p_pool_current_b bxh (hstate bxh ch ru) t
+  | HRestart :: t => p_pool_current_b bxh cur t
+  | HCheck ib pd a :: t =>
+      (negb a || (if is_local bxh ib then master_accepts cur ib pd else vres_ok (c_verify cur ib pd)))
+      && p_pool_current_b bxh cur t
+  end.
+
+Definition ans_eqb (m : option (pstate * vres)) (o : option bool) : bool :=
+  match m, o with
+  | None, None => true
+  | Some (_, v), Some a => Bool.eqb (vres_ok v) a
+  | _, _ => false
+  end.
+
+Definition pool_matches (m : bool) (k : hcase) : bool :=
+  forallb (fun p : option (pstate * vres) * option bool => ans_eqb (fst p) (snd p))
+          (combine (c_pool_run {| d_memo_view := m; snapshot_ledger := hc_snapshot k |} k) (map hev_obs (hc_evs k))).
+
+Fixpoint hmatch_idx (ms : list bool) (k : hcase) (i : N) : N :=
+  match ms with
+  | [] => 0
+  | m :: t => if pool_matches m k then i else hmatch_idx t k (N.succ i)
+  end.
+
+Definition judge_pool (k : hcase) : verdict :=
+  if negb (p_pool_current_b (hc_bxh k) (n_committed (empty_node (hc_bxh k))) (hc_evs k)) then V_propfalse 700
+  else let i := hmatch_idx (hc_memo k) k 1 in
+       if i =? 0 then V_mismatch 0 else (0, i).
 
 (** judge for the entry-point histories: observed (SUCCESS?, processed?) per step *)
 Record ecase := { ec_cfgs : list ecfg; ec_ops : list entry_op; ec_obs : list (bool * bool) }.
